@@ -36,10 +36,18 @@ def plan(tier, seed):
         parts = 1 if tier == "quick" else 4
         for p in range(parts):
             jobs.append({"name": "c%02d_%d" % (ci, p), "spec": {"curve": ci, "part": p, "parts": parts}})
+    # the first keys and signatures of a process made by several threads at once on ONE curve (fresh process per shard; staggered
+    # starts): nothing has multiplied the curve's generator before the threads start
+    for i in range(4 if tier == "quick" else 34):
+        jobs.append({"name": "firstuse%02d" % i, "spec": {"kind": "firstuse", "i": i, "curve": (2, 13, 5, 0, 9, 16)[i % 6] if tier == "quick" else i % 17}})
     return jobs
 
 
 def mandatory_bins(tier):
+    return _mandatory_bins(tier) + ["first_keys_and_signatures_of_the_process_made_by_concurrent_threads"]
+
+
+def _mandatory_bins(tier):
     b = ["hash_" + h for h in HASHES] + ["enc_" + e for e in ENCODINGS]
     b += ["digest_longer_than_order", "key_scalar_1", "key_scalar_n-1", "lib_sig_verified_by_openssl", "openssl_sig_verified_by_lib", "rfc6979_compared", "message_bit_flips", "signature_bit_flips",
           "other_key", "forged_r_0", "forged_s_0", "forged_r_n", "forged_s_n", "forged_r_n_plus_1", "forged_2^k", "malformed_truncated", "malformed_extended", "malformed_retagged", "der_long_form_length", "high_s_and_low_s", "verifying_key_with_precomputed_tables", "rfc6979_with_additional_data", "rfc6979_with_additional_data_and_rejected_first_candidate", "malformed_strings_components_resplit", "key_loaded_with_hashfunc_argument", "digest_equal_to_the_order_or_next_to_it", "hash_of_the_call_differs_from_the_keys_default"]
@@ -84,8 +92,73 @@ def my_encode(name, r, s, n):
     return r.to_bytes(L, "big") + s.to_bytes(L, "big")
 
 
+def run_firstuse(ns, ctx, spec):
+    from ..refs import rfc6979 as R6
+    from ..sched import yieldrun
+
+    K = ns.keys
+    EC = ns.ellipticcurve
+    rng = ctx.rng
+    i = spec["i"]
+    cv = weierstrass_curves(ns)[spec["curve"]]
+    name = cv.openssl_name
+    n = int(cv.order)
+    nthreads = (2, 3, 4, 6)[i % 4]
+    hf = hashlib.sha256
+    ds = [rng.randrange(1, n) for _ in range(nthreads)]
+    msgs = [rng.randbytes(20) for _ in range(nthreads)]
+    codes = [getattr(EC.PointJacobi, f).__code__ for f in ("_maybe_precompute", "__mul__", "_mul_precompute", "scale") if hasattr(EC.PointJacobi, f)]
+    codes += yieldrun.code_objects_of(K.SigningKey)
+
+    def body(t):
+        def run():
+            sk = K.SigningKey.from_secret_exponent(ds[t], curve=cv, hashfunc=hf)
+            sig = sk.sign_deterministic(msgs[t], hashfunc=hf)
+            pt = sk.verifying_key.pubkey.point
+            return (int(pt.x()), int(pt.y())), sig
+        return run
+
+    res, y = yieldrun.run_concurrently([body(t) for t in range(nthreads)], codes, sleep=0.0002, max_yields=5000, timeout=200, stagger=(0.0, 0.004, 0.015, 0.04, 0.1)[i % 5])
+    ctx.bin("first_keys_and_signatures_of_the_process_made_by_concurrent_threads")
+    ctx.mon("line_yields_injected", y)
+
+    def judge(t, r, how):
+        ctx.ev()
+        ctx.distinct("firstuse", cv.name, ds[t], msgs[t], how)
+        rp = {"kind": "firstuse", "i": i, "curve_index": spec["curve"]}
+        if r[0] == "exc":
+            ctx.violation("key_or_signature_raises:" + how, {"curve": cv.name, "exc": r[1][:200], "threads": nthreads}, rp)
+            return
+        pub, sig = r[1]
+        ctx.mon("sign_deterministic")
+        if pub != ossl.point_mul(name, ds[t]):
+            ctx.violation("public_key_differs_from_openssl:" + how, {"curve": cv.name, "threads": nthreads}, rp)
+            return
+        digest = hf(msgs[t]).digest()
+        er, es, _ = R6.sign(n, ds[t], digest, hf, lambda k: ossl.point_mul(name, k)[0])
+        L = (n.bit_length() + 7) // 8
+        ctx.mon("oracle:rfc6979_model")
+        if sig != er.to_bytes(L, "big") + es.to_bytes(L, "big"):
+            ctx.violation("deterministic_signature_differs_from_rfc6979:" + how, {"curve": cv.name, "threads": nthreads}, rp)
+
+    for t, r in enumerate(res):
+        if r is None:
+            ctx.note("thread_still_running_after_timeout(inconclusive)")
+            continue
+        judge(t, r, "first_use_by_concurrent_threads")
+    for t in range(nthreads):
+        try:
+            r = ("ok", body(t)())
+        except Exception as e:
+            r = ("exc", repr(e))
+        judge(t, r, "after_first_use_by_concurrent_threads")
+
+
 def run_shard(spec, ctx):
     ns = load()
+    if spec.get("kind") == "firstuse":
+        run_firstuse(ns, ctx, spec)
+        return
     K = ns.keys
     rng = ctx.rng
     quick = ctx.tier == "quick"
@@ -354,5 +427,8 @@ def run_shard(spec, ctx):
 
 def replay(rec, ctx):
     ns = load()
+    if rec.get("kind") == "firstuse":
+        run_firstuse(ns, ctx, {"i": rec["i"], "curve": rec["curve_index"]})
+        return
     names = [c.name for c in weierstrass_curves(ns)]
     run_shard({"curve": names.index(rec["curve"]), "part": 0, "parts": 1}, ctx)
